@@ -77,7 +77,7 @@ def gen_batch(rng, nsent, hostile=True):
     case = search.gen_case(rng, n_sent=nsent, max_n=6, sparse=sparse,
                            family=rng.choice(('uniform', 'ties', 'ties', 'softmax', 'deceptive')))
     cfg = case['config']
-    cfg['nbest'] = rng.choice((1, 1, 1, 2, 3)) if nsent <= 12 else 1
+    cfg['nbest'] = rng.choice((1, 1, 1, 2, 3)) if nsent <= 12 else rng.choice((1, 1, 2))
     if cfg['nbest'] > 1:
         cfg['max_step'] = 20000          # n-best search is exhaustive up to the k-th goal: keep it bounded
     kinds = []
